@@ -144,6 +144,11 @@ def sampler_orders(ck, recs, data, max_points=3):
             for (tk, order), p in law.items():
                 groups.setdefault(tk if tk is not None else key, {})[order] = p
             for tk, glaw in groups.items():
+                if which.startswith("subtree") and tk is not None and tk[1] != key[1]:
+                    # MoveRel.tla (SubBlock): the pass of the subtree move takes ALL outliers of the current tree along.
+                    # A pass on fewer outliers is a smaller block, not a wrong order: reported as drift, and the orders are
+                    # still judged against the tree the pass is actually conditioned on.
+                    out.append(("drift", "the subtree move hands its SMC pass a tree with outliers %s although the current tree has %s (MoveRel.tla SubBlock takes all of them along)" % (sorted(tk[1]), sorted(key[1])), None))
                 want = orders_of.get(tk)
                 rep = {"state": absstate.to_json(key), "sampler": which, "pass_tree": absstate.to_json(tk)}
                 if want is None:
@@ -166,6 +171,10 @@ def sampler_orders(ck, recs, data, max_points=3):
                     if msg not in noted:
                         noted.add(msg)
                         ck.note(msg)
+                elif sig == "drift":
+                    if "drift" not in noted:
+                        noted.add("drift")
+                        ck.model_drift(msg)
                 else:
                     ck.violation(sig, msg, rep)
             if nontriv:
@@ -213,6 +222,50 @@ def retained_path_pdf(ck, recs, data, max_points):
                     break
     ck.evaluations += n_checked
     ck.extra["retained_path_particles_checked"] = n_checked
+
+
+def proposed_particle_pdf(ck, recs, data, max_points):
+    """The permutation log-density of every particle a kernel PROPOSES (every parent forest - incl. the empty and the
+    outlier-only ones - x next data point x kernel kind, every outcome of the proposal's draw enumerated) must be minus
+    the log of the number of orders compatible with the tree the particle holds (TLC's count)."""
+    from .c08 import kernel_cls, clear_caches
+    from phyclone.smc.swarm import Particle
+    from phyclone.smc.utils import RootPermutationDistribution
+    from phyclone.tree import FSCRPDistribution, TreeJointDistribution
+    counts = {absstate.canon(r_["st"]): r_["count"] for r_ in recs}
+    td = TreeJointDistribution(FSCRPDistribution(1.3))
+    perm = RootPermutationDistribution()
+    n_checked = 0
+    for pkey in sorted(counts, key=absstate.key_str):
+        ids = absstate.data_ids(pkey)
+        if len(ids) >= max_points or ids != set(range(len(ids))):
+            continue
+        d = len(ids)
+        for kname in ("boot", "semi", "full"):
+            clear_caches()
+            rng = EnumRNG()
+            kern = kernel_cls(kname)(td, rng, outlier_proposal_prob=0.1, perm_dist=perm)
+            if ids:
+                ptree = absstate.build(pkey, data)
+                ppart = Particle(0, None, ptree, td, perm)
+            else:
+                ptree, ppart = None, None
+            bad = None
+            for t, p, _ in enumerate_paths(lambda: kern.propose_particle(data[d], ppart), rng):
+                k2 = absstate.quick_key(t.tree)
+                if k2 not in counts:
+                    continue
+                n_checked += 1
+                want = -math.log(counts[k2])
+                if abs(float(t.log_pdf) - want) > 1e-9 and bad is None:
+                    bad = (k2, float(t.log_pdf), want)
+            if bad:
+                ck.violation("C09|proposed_particle|log_pdf|%s" % kname, "the %s kernel proposes, from parent %s and data point %d, a particle holding %s with permutation log-density %.12g; -log(number of compatible orders) = %.12g" % (
+                    kname, absstate.key_str(pkey), d, absstate.key_str(bad[0]), bad[1], bad[2]), {"parent": absstate.to_json(pkey), "d": d, "kernel": kname, "tree": absstate.to_json(bad[0])})
+        if len(pkey[1]) >= 1:
+            ck.nontrivial("proposed_pdf:" + absstate.key_str(pkey))
+    ck.evaluations += n_checked
+    ck.extra["proposed_particles_checked"] = n_checked
 
 
 def py_count(key):
@@ -351,6 +404,7 @@ def run(corrupt=None):
     uniq = [r_ for r_ in recs if not (absstate.canon(r_["st"]) in seen2 or seen2.add(absstate.canon(r_["st"])))]
     sampler_orders(ck, uniq, data, max_points=(4 if thorough else 3))
     retained_path_pdf(ck, uniq, data, max_points=4)
+    proposed_particle_pdf(ck, uniq, absstate.make_data(n, kind="int", grid=3, outlier_prob=0.2), max_points=4)
     # histories: the reported density must stay right on trees that were edited in place after earlier queries
     import numpy as np
     from .. import treeadt
